@@ -455,6 +455,19 @@ fn item(f: FId) -> BoxedStrategy<Item> {
         }),
         5 => near_modulus(fl).prop_map(|(v, family)| Item::Checked { v, family }),
         5 => (gen::fe(&m), gen::fe(&m), any::<u8>(), any::<bool>()).prop_map(|(a, b, flag_sel, same)| Item::Elems { b: if same { a.clone() } else { b }, a, flag_sel }),
+        // pairs that agree in most limbs and differ in two limbs in opposite directions
+        // (b = a + u*2^(64i) - v*2^(64j)): what a limb-order slip in Ord / Eq / Hash needs
+        3 => {
+            let m2 = m.clone();
+            let nl = ((fl.bits + 63) / 64) as u32;
+            (gen::fe(&m), 0u32..nl, 0u32..nl, prop_oneof![Just(1u64), Just(2u64), any::<u64>()], prop_oneof![Just(1u64), Just(2u64), any::<u64>()], any::<u8>())
+                .prop_map(move |(a, i, j, u, v, flag_sel)| {
+                    let up = (N::from(u) << (64 * i as u64)) % &m2;
+                    let down = (N::from(v) << (64 * j as u64)) % &m2;
+                    let b = (&a.0 + up + &m2 - down) % &m2;
+                    Item::Elems { a, b: Num(b), flag_sel }
+                })
+        },
         1 => gen::limb_vec(2usize).prop_map(|l| Item::Ints { v: Num(crate::api::int_of_limbs(&l)) }),
         1 => prop_oneof![
             "[0-9]{1,120}".prop_map(|s| s),
